@@ -112,7 +112,7 @@ def reap (E : XExt) (s : Store) : Store × ReapRes :=
   else if !scanOk E s1.files then (s1, .err)
   else
     match chainFiles s1 with
-    | [] => (s1, .noop)
+    | [] => if s1.files = [] then (s1, .noop) else (s1, .err)   -- empty store / "no full snapshot found"
     | db :: wals =>
       -- "Single full snapshot with nothing newer — nothing to do" (even if it has WAL files)
       if snapCount s1.files ≤ 1 then (s1, .noop)
@@ -121,6 +121,66 @@ def reap (E : XExt) (s : Store) : Store × ReapRes :=
       else
         let out := E.replay db.content (wals.map (·.content))
         ({ s1 with files := [{ content := out, side := .crc (E.crc out), isDb := true, snap := db.snap }] }, .ok)
+
+/-! ### the consumers as programs
+
+`Open` and `reapInternal` written as the sequence of steps the Go functions execute, with an
+interpreter; `Props/C12` proves that `openNewest` / `reap` ARE these programs, and that the
+call order extracted from the current source (Gen/SnapVerify.lean) maps onto them. -/
+
+inductive Step
+  | ensureVerified   -- s.ensureVerified()
+  | scan             -- s.getSnapshots() (catalog scan)
+  | buildStream      -- ResolveFiles + NewChecksummedSnapshotStreamer
+  | checkInputs      -- inputs.Check() before the checkpoint
+  | consolidate      -- plan: checkpoint, fresh CRC, remove, rename
+deriving DecidableEq, Repr
+
+structure Run where
+  s      : Store
+  failed : Bool := false
+  out    : Option (List FileHdr × List Bytes) := none
+  res    : ReapRes := .noop
+
+def stepRun (E : XExt) (r : Run) (st : Step) : Run :=
+  if r.failed then r
+  else match st with
+    | .ensureVerified => let p := ensureVerified E r.s; { r with s := p.1, failed := !p.2 }
+    | .scan => if !scanOk E r.s.files then { r with failed := true } else r
+    | .buildStream =>
+      { r with out := some ((chainFiles r.s).map (headerOf E), (chainFiles r.s).map (·.content)) }
+    | .checkInputs =>
+      match chainFiles r.s with
+      | [] => if r.s.files = [] then r else { r with failed := true }
+      | db :: wals =>
+        if snapCount r.s.files ≤ 1 then r
+        else if wals = [] then r
+        else if !(db :: wals).all (fileCrcOk E) then { r with failed := true } else r
+    | .consolidate =>
+      match chainFiles r.s with
+      | [] => r
+      | db :: wals =>
+        if snapCount r.s.files ≤ 1 then r
+        else if wals = [] then { r with s := { r.s with files := [db] }, res := .ok }
+        else
+          let out := E.replay db.content (wals.map (·.content))
+          { r with s := { r.s with files := [{ content := out, side := .crc (E.crc out), isDb := true, snap := db.snap }] },
+                   res := .ok }
+
+def runProgram (E : XExt) (prog : List Step) (s : Store) : Run := prog.foldl (stepRun E) { s := s }
+
+def openProgram : List Step := [.ensureVerified, .scan, .buildStream]
+def reapProgram : List Step := [.ensureVerified, .scan, .checkInputs, .consolidate]
+def ensureProgram : List Step := [.ensureVerified]
+
+/-- source call names → model steps (calls that are not steps of the model map to `none`) -/
+def stepOfCall (c : String) : Option Step :=
+  if c = "ensureVerified" then some .ensureVerified
+  else if c = "getSnapshots" then some .scan
+  else if c = "NewChecksummedSnapshotStreamer" then some .buildStream
+  else if c = "Check" then some .checkInputs
+  else if c = "AddCheckpoint" then some .consolidate
+  else none
 
 /-! ### line protocol (component `snapverify`)
 `new` → ok;  `file db|wal|olddb|oldwal <snapdir#> <contenthex> <side>` → ok   (side: `c<decimal>` | `d` | `b`)
